@@ -1,5 +1,5 @@
 """C09 — a blocked log call resumes; no stall on an empty queue (DESIGN §4 C09)."""
-from qlib import (AnalysisBroken, atomic_op, is_this_field, field_name, strip, norm_cmp, is_call, const_val, is_null,
+from qlib import (peel_not, AnalysisBroken, atomic_op, is_this_field, field_name, strip, norm_cmp, is_call, const_val, is_null,
                   isnode, walk, short, var_ref, is_release)
 from rules import c01, c02
 
@@ -165,7 +165,7 @@ def check_retry_loop(ctx, facts, cfg):
                 continue
             nc = norm_cmp(c)
             if nc and nc[0] in ("==", "!="):
-                cc = strip(c)
+                cc = peel_not(c)
                 if (var_ref(cc["lhs"]) == vid and is_null(cc["rhs"])) or (var_ref(cc["rhs"]) == vid and is_null(cc["lhs"])):
                     tests.append((bid, "T" if nc[0] == "==" else "F"))  # label of the null outcome
         ok = bool(tests) and bool(assigns)
@@ -210,7 +210,7 @@ def check_commit_after_pass(ctx, facts, cfg):
             if c is None:
                 continue
             nc = norm_cmp(c)
-            cc = strip(c)
+            cc = peel_not(c)
             vid = None
             zero_lab = None
             if nc and nc[0] in ("==", "!=") and isnode(cc) and cc["k"] == "BinaryOperator":
